@@ -316,7 +316,7 @@ theorem assignment_typed_agree (x : Opnd) (t : Ty) (hx : x.rv = .none) (hxt : x.
   rw [hG]
   unfold assignmentY
   simp only [isNil_typed x.ty hxt, hxt, Bool.false_and, Bool.false_eq_true, ↓reduceIte, hx,
-    assignableToY_typed x.ty t hxt ht h1 h2, okIf]
+    assignableToY_typed x.ty t hxt ht h1 h2, okIf, ite_self]
 
 /-! ### shifts, arithmetic, comparisons, index expressions on typed non-constant operands -/
 theorem isIntT_typed (t : Ty) (h : t.isUntyped = false) : isIntT FE t = kindIsG Kind.isInteger t := by
@@ -363,7 +363,9 @@ theorem arith_typed_agree (op : BinOp) (x y : Opnd) (hop : op.propagates = true)
   have hny := isNil_typed y.ty hyt
   obtain ⟨k, hk, hk'⟩ := kind_typed_noniface x.ty hxt hxi
   have hb : boolResultRv x y = .none := by simp [boolResultRv, hx]
-  have hz : zeroConstY y = .ok false := by simp [zeroConstY, hyt]
+  have hz : zeroConstY TE y = .ok false := by
+    have hm : TE.zeroConst = .numericConst := rfl
+    simp [zeroConstY, hm, RVal.valid, hy]
   have hm : matchG x y = .ok (x, y) := by
     have : (RVal.none == RVal.ubool) = false := by decide
     simp [matchG, untypedLike, hxt, hyt, hx, hy, this]
@@ -443,17 +445,169 @@ theorem index_typed_agree (a i : Opnd) (ha : a.rv = .none) (hi : i.rv = .none) (
   have h1 := isIntT_typed i.ty hit
   have e1 : TE.ops = FE := rfl
   have hu : (RVal.none == RVal.ubool) = false := by decide
-  have hchk : ∀ m, indexCheckY FE i m = indexValueG i m := by
+  have hchk : ∀ m, indexCheckY TE i m = indexValueG i m := by
     intro m
     unfold indexCheckY indexValueG
-    simp only [hcv, Res.bind_ok, h1, hi, hu]
+    simp only [e1, hcv, Res.bind_ok, h1, hi, hu]
     generalize hk : kindIsG Kind.isInteger i.ty = b
     cases hty : i.ty with
     | untyped u => simp [hty, Ty.isUntyped] at hit
     | nil => simp [hty, Ty.isUntyped] at hit
     | _ => cases b <;> simp [Res.bind] <;> cases m <;> first | rfl | (rw [← hty]; exact hk) | simp_all
   unfold indexY indexG
-  cases hty : a.ty <;> simp [hty] at hb <;> simp only [e1, hchk, ha, hu, Bool.false_eq_true, ↓reduceIte]
+  cases hty : a.ty <;> simp [hty] at hb <;> simp only [hchk, ha, hu, Bool.false_eq_true, ↓reduceIte]
   · simp [hb]
+
+/-! ### the rules repaired in the third round (5877dba … f150e30): full agreement on their whole input space -/
+
+/-- F12-12 (f150e30): a call used as a single value, not as the operand of a conversion — no result is an error on both
+    sides, one result is its type, several results are outside the description on both sides: equal for EVERY signature -/
+theorem callValue_agree (rets : List STy) : callValueY TE false rets = callValueG false rets := by
+  have h : TE.callValueChecked = true := rfl
+  unfold callValueY callValueG
+  rw [h]
+  cases rets with
+  | nil => rfl
+  | cons r rest => cases rest <;> rfl
+
+/-- …as the operand of a conversion the two sides agree exactly on the calls with one result (F12-21) -/
+theorem callValue_conv_agree (rets : List STy) : (callValueY TE true rets = callValueG true rets) ↔ rets.length = 1 := by
+  have h : TE.callValueChecked = true := rfl
+  unfold callValueY callValueG
+  rw [h]
+  cases rets with
+  | nil => simp
+  | cons r rest => cases rest <;> simp
+
+/-- F12-7 (82e65a0): a send statement is the direction test plus the assignment of the value to the element type.
+    For every channel operand but `nil` the rule agrees with the specification as soon as the assignment check
+    does (`assignment_typed_agree` for typed values; the constants are covered by the correspondence) -/
+theorem send_agree (c v : Opnd) (hn : c.ty ≠ .nil)
+    (ha : ∀ d t, c.ty = .chan d t → assignmentY FE v (.s t) = (if assignableG v (.s t) then .ok () else .err)) :
+    sendY TE c v = sendG c v := by
+  have h1 : TE.sendValueChecked = true := rfl
+  have h2 : TE.sendDirChecked = true := rfl
+  have e1 : TE.ops = FE := rfl
+  unfold sendY sendG kindOf
+  rw [h1, h2, e1]
+  cases hty : c.ty with
+  | nil => exact absurd hty hn
+  | chan d t =>
+    have := ha d t hty
+    cases d <;> simp [Ty.kind?, Ty.rtype?, RTy.kind, this, Res.bind, bind]
+  | iface i m => by_cases hm : m.isEmpty <;> simp [Ty.kind?, Ty.rtype?, RTy.kind, hm, Res.bind, bind]
+  | _ => simp [Ty.kind?, Ty.rtype?, RTy.kind, Res.bind, bind]
+
+/-- F12-7: a typed non-constant value sent on a channel: exactly Go's rule, outside the two open classes
+    (interface value for a concrete element type F12-6, reflect collision F12-5) -/
+theorem send_typed_agree (c v : Opnd) (hn : c.ty ≠ .nil) (hv : v.rv = .none) (hvt : v.ty.isUntyped = false)
+    (h1 : ∀ d t, c.ty = .chan d t → v.ty.isIface = false)
+    (h2 : ∀ d t, c.ty = .chan d t → reflectCollision v.ty (.s t) = false) :
+    sendY TE c v = sendG c v :=
+  send_agree c v hn (fun d t h =>
+    assignment_typed_agree v (.s t) hv hvt rfl (by simp [h1 d t h]) (h2 d t h))
+
+/-- F12-10 (8a6620e): an operand that cannot be indexed is an error on both sides (no Go panic, no acceptance),
+    whatever the index -/
+theorem index_non_indexable_agree (a i : Opnd) (ha : a.rv = .none)
+    (hb : (match a.ty with
+           | .s t => t.under != .string
+           | .ptr _ | .chan _ _ | .func _ _ | .struct _ _ _ | .iface _ _ => true
+           | _ => false) = true) :
+    indexY TE a i = .err ∧ indexG a i = .err := by
+  have h : TE.indexOperandChecked = true := rfl
+  have hu : (RVal.none == RVal.ubool) = false := by decide
+  unfold indexY indexG
+  rw [h]
+  cases hty : a.ty with
+  | s t => simp [hty] at hb; simp [ha, hu, hb]
+  | ptr t => cases t <;> simp [ha, hu]
+  | _ => simp_all
+
+/-- F12-3 (5877dba): `&&` / `||` on typed non-constant operands that are not comparisons: `logicalExpr` decides as
+    the specification (both operands of the same boolean type) -/
+theorem logical_typed_agree (op : BinOp) (hop : op.propagates = false) (z : Option Ty) (x y : Opnd)
+    (hx : x.rv = .none) (hy : y.rv = .none)
+    (hxt : x.ty.isUntyped = false) (hyt : y.ty.isUntyped = false)
+    (hxi : x.ty.isIface = false) (hyi : y.ty.isIface = false) :
+    binY TE op z x y = binG op z x y := by
+  have hl : TE.landLorChecked = true := rfl
+  have hc : bothConstant x y = false := by simp [bothConstant, Opnd.isConst, hx]
+  have hcg : bothConstantG x y = false := by simp [bothConstantG, Opnd.isConst, hx]
+  have hnx := isNil_typed x.ty hxt
+  have hny := isNil_typed y.ty hyt
+  obtain ⟨k, hk, hk'⟩ := kind_typed_noniface x.ty hxt hxi
+  obtain ⟨k2, hk2, hk2'⟩ := kind_typed_noniface y.ty hyt hyi
+  have hb : boolResultRv x y = .none := by simp [boolResultRv, hx]
+  have hm : matchG x y = .ok (x, y) := by
+    have : (RVal.none == RVal.ubool) = false := by decide
+    simp [matchG, untypedLike, hxt, hyt, hx, hy, this]
+  have hcx : convertUntypedY TE.ops x y.ty = .ok x := by simp [convertUntypedY, hxt]
+  have hcy : convertUntypedY TE.ops y x.ty = .ok y := by simp [convertUntypedY, hyt]
+  have heq : equalsT x.ty y.ty = (x.ty == y.ty) := by simp [equalsT, hxi, hyi]
+  have hu : (RVal.none == RVal.ubool) = false := by decide
+  have hp1 : binaryY TE.ops op.op.action k = definedOn op.op k := binaryY_spec op k
+  have hp2 : binaryY TE.ops op.op.action k2 = definedOn op.op k2 := binaryY_spec op k2
+  unfold binY binG landLorY logicalOperandY
+  cases op <;> simp [BinOp.propagates] at hop <;>
+    simp only [hc, hcg, hnx, hny, hm, hl, hcx, hcy, heq, hk, hk2, hk', hb, hx, hy, hu, hp1, hp2,
+      Bool.false_eq_true, ↓reduceIte, Res.bind_ok, Bool.not_false, Bool.false_or, Bool.or_false,
+      Bool.and_false, Bool.false_and, Bool.and_true, bne, pure, Bool.not_eq_true'] <;>
+    (by_cases hxy : x.ty = y.ty
+     · have hkk : k2 = k := by rw [hxy, hk2] at hk; exact Option.some.inj hk
+       subst hkk
+       simp [hxy]
+       cases definedOn _ k2 <;> simp [Res.bind, bind]
+     · have : (x.ty == y.ty) = false := by simp [hxy]
+       simp [this, hxy]
+       cases definedOn _ k <;> cases definedOn _ k2 <;> simp [Res.bind, bind])
+
+/-- F12-9 / F12-10 / F12-11 (03fb34b): `zeroConst` sees exactly the zero constants of numeric type, typed or not, and
+    no longer panics on the others -/
+theorem zeroConst_agree (y : Opnd) (hn : isNumberT FE y.ty = true) : zeroConstY TE y = .ok (isZeroConst y) := by
+  have hm : TE.zeroConst = .numericConst := rfl
+  have e1 : TE.ops = FE := rfl
+  unfold zeroConstY isZeroConst
+  rw [hm]
+  simp only [e1, hn]
+  cases hrv : y.rv with
+  | const c => cases c <;> simp [RVal.valid]
+  | typed v => cases v <;> simp [RVal.valid]
+  | _ => simp [RVal.valid]
+
+theorem zeroConst_total (y : Opnd) : ∃ b, zeroConstY TE y = .ok b := by
+  have hm : TE.zeroConst = .numericConst := rfl
+  unfold zeroConstY
+  rw [hm]
+  simp only
+  split
+  · exact ⟨_, rfl⟩
+  · split <;> exact ⟨_, rfl⟩
+
+/-- F12-9 (03fb34b): an integer constant returned for a basic integer result type is accepted exactly when it is in range -/
+theorem ret_int_const_agree (v : Int) (b : Basic) (hb : b.kind.isInteger = true) :
+    retValsY TE [.basic b] [(.plain, ⟨.untyped .int, .const (.int v)⟩)] =
+      (if representableG (.int v) b then .ok () else .err) := by
+  have hr : TE.retConstChecked = true := rfl
+  have e1 : TE.ops = FE := rfl
+  have hnum : isNumberT FE (.s (.basic b)) = true := by
+    cases b <;> simp [Basic.kind, Kind.isInteger, Kind.isSigned, Kind.isUnsigned] at hb <;> rfl
+  have hass : assignableToY FE (.untyped .int) (.s (.basic b)) (.const (.int v)) = .ok true := by
+    cases b <;> simp [Basic.kind, Kind.isInteger, Kind.isSigned, Kind.isUnsigned] at hb <;> rfl
+  have hrep := representable_int_agree v b hb
+  unfold retValsY
+  simp only [e1, hr, hass, Res.bind_ok, STy.under, hrep, hnum, Ty.isUntyped, retValsY]
+  cases representableG (.int v) b <;> simp [Res.bind, bind]
+
+/-- F12-9 (03fb34b): a constant index — untyped integer or typed — is rejected when negative, whatever the bound -/
+theorem index_negative_rejected (T : TcFacts) (hT : T.indexNegChecked = true) (i i' : Opnd) (max : Option Nat)
+    (hc : convertUntypedY T.ops i (.s (.basic .int)) = .ok i')
+    (v : Int) (hv : i'.rv = .const (.int v) ∨ i'.rv = .typed (some v)) (hneg : v < 0) :
+    indexCheckY T i max = .err := by
+  unfold indexCheckY
+  simp only [hc, Res.bind_ok]
+  by_cases hi : isIntT T.ops i'.ty = true
+  · rcases hv with hv | hv <;> simp [hi, hv, hT, hneg, Res.bind, bind]
+  · simp [hi, Res.bind, bind]
 
 end YaegiVerif.Typecheck
